@@ -206,6 +206,11 @@ def run(ctx):
         from . import mgr_deep
         mgr_deep.report(ctx, rs, mgr_deep.cache_results(), "pysmt/formula.py", 12)
 
+    if ctx.want("R8"):
+        rs = ctx.rule("R8", "real manager: after the type checker's be_nice mode was used to probe an ill-typed application and switched off again, constructions have the outcome of a fresh manager")
+        from . import mgr_deep
+        mgr_deep.report(ctx, rs, mgr_deep.mode_results(), "pysmt/formula.py", 10)
+
     from . import c14_deep
     c14_deep.run(ctx)
     c14_deep.run_history(ctx)
